@@ -181,6 +181,25 @@ theorem dct_keeps_last {α} (k : List Nat) (l : List (List Nat × α)) :
   rw [lookup_dctOf k l []]
   cases lastOcc k l <;> rfl
 
+/-- **namelist_is_filter** (any multiset of names in the file, any name list).  For an encoded file whose matrix
+names may repeat anywhere: `load(file, namelist=pl, into='list')` is the filter of the full read by the name test —
+EVERY occurrence of a requested name, in file order (the scan does not stop after the first hit) — and
+`read(file, namelist=pl)[k]` (dict mode: `dct[name] = X` over that list) is, for every requested name `k`, the LAST
+matrix named `k` in the whole file. -/
+theorem namelist_is_filter (v : Variant) (cut : Int) (pl : List (List Nat)) (ms : List VMat) (hne : ms ≠ [])
+    (hok : ∀ m ∈ ms, VMatOk v m) :
+    ∃ full named, loadBytes cut [] (encVFile v ms) = .ok full ∧ loadBytes cut pl (encVFile v ms) = .ok named ∧
+      named = full.filter (fun d => !skipped pl d.name) ∧
+      ∀ k, skipped pl k = false →
+        lookupD k (dctOf (named.map fun d => (d.name, d))) = lastOcc k (full.map fun d => (d.name, d)) := by
+  obtain ⟨full, hfull, hnamed⟩ := named_subset_is_filter_binary v cut pl ms hne hok
+  refine ⟨full, _, hfull, hnamed, rfl, ?_⟩
+  intro k hk
+  rw [dct_keeps_last]
+  have := lastOcc_filter (α := VDec) (fun n => !skipped pl n) k (by simp [hk]) (full.map fun d => (d.name, d))
+  rw [← this, List.filter_map]
+  rfl
+
 /-! ### non-vacuity: admissible matrices in every layout, for a 64-bit single precision big-endian file and for a
 32-bit double precision little-endian one; a column cut into two adjacent strings, a string of length one, a
 stored zero; an empty matrix with a negative row count -/
@@ -229,5 +248,10 @@ example : Shape [[0, 5, 6, 0, 7]] 1 (1 * 5) ∧
 
 example : lookupD [107] (dctOf [([107], 1), ([109], 2), ([107], 3)]) = some 3 ∧
     (dctOf [([107], 1), ([109], 2), ([107], 3)]).map (·.1) = [[107], [109]] := by decide
+
+/-- a file with the names kaa, maa, kaa, pha, pha: the name test keeps every occurrence; dict mode the last -/
+example : ([[107, 97, 97], [109, 97, 97], [107, 97, 97], [112, 104, 97], [112, 104, 97]].filter
+      fun n => !skipped [[112, 104, 97]] n) = [[112, 104, 97], [112, 104, 97]] ∧
+    lastOcc [107, 97, 97] [([107, 97, 97], 1), ([109, 97, 97], 2), ([107, 97, 97], 3)] = some 3 := by decide
 
 end PyYetiVerif.C11
